@@ -124,13 +124,15 @@ Print Assumptions C11_decoded_tree_shape.
    specification encoding.  Guards: no fixed-point leaf (refuted below), no zero-length fixed
    array, bool leaves holding 0 or 1 (a bool decoded from a word 2..255 re-encodes and re-decodes to
    itself in the implementation, but is outside the specification's typing and so outside this
-   route), and C02's size guard (fewer than 2^248 bytes/nodes). *)
+   route), C02's size guard (fewer than 2^248 bytes/nodes) and C03's (re-encoding shorter than 2^32
+   bytes, every sequence shorter than 2^32: the decoder refuses count/offset words above 32 bits). *)
 Theorem C11_stable_partial :
   decode_inverts_enc ->
   forall (c : tcomp) (bs : bytes) (off : Z) (x : cval) (e : bytes),
     tc_wf c = true -> tc_no_fixed_point c = true -> tc_no_zero_len c = true ->
     DecodeABIData c bs off = Ok x -> EncodeABIData x = Ok e ->
     bools_ok x = true -> weight_ok (val_of x) ->
+    zlen e < 2 ^ 32 -> list_counts_ok (val_of x) = true ->
     DecodeABIData c e 0 = Ok x.
 Proof. exact stable_given_roundtrip. Qed.
 Print Assumptions C11_stable_partial.
@@ -142,7 +144,10 @@ Theorem C11_stable_fixed_refuted :
     tc_wf c = true /\ DecodeABIData c bs 0 = Ok x /\ EncodeABIData x = Ok e /\
     match DecodeABIData c e 0 with Ok x' => cval_eqb x x' | _ => false end = false.
 Proof.
-  exists (tc_of_ty (TTuple [TFixed 8 1])), (repeat xff 32). eexists. eexists.
+  exists (tc_of_ty (TTuple [TFixed 8 1])), (repeat xff 32).
+  exists (CV (Some (tc_of_ty (TTuple [TFixed 8 1])))
+            [CV (Some (tc_of_ty (TFixed 8 1))) [] (GBigFloat (BFin (-14757395258967641293) (-67) 64))] GNil).
+  exists (Rlp.Model.be_fixed 32 1).
   split; [vm_compute; reflexivity|]. split; [vm_compute; reflexivity|]. split; vm_compute; reflexivity.
 Qed.
 Print Assumptions C11_stable_fixed_refuted.
@@ -190,15 +195,17 @@ Proof.
   split; [|split; vm_compute; reflexivity].
   intros p tc [<-|[<-|[<-|[]]]] E; injection E as <-; reflexivity.
 Qed.
-(* the hypotheses of C11_stable_partial are met by a decoded (uint8[], string, bool) *)
+(* the hypotheses of C11_stable_partial are met by a decoded (uint8[], string, bool), and the
+   conclusion holds for it *)
 Example C11_stable_hypotheses_met :
   let c := tc_of_ty (TTuple [TDynArr (TUInt 8); TString; TBool]) in
   let bs := w 96 ++ w 160 ++ w 1 ++ w 1 ++ repeat xff 32 ++ w 2 ++ [x41; x42] ++ repeat x00 30 in
-  exists x e, tc_wf c = true /\ tc_no_fixed_point c = true /\ tc_no_zero_len c = true /\
-              DecodeABIData c bs 0 = Ok x /\ EncodeABIData x = Ok e /\ bools_ok x = true /\
-              DecodeABIData c e 0 = Ok x.
-Proof.
-  eexists. eexists. split; [vm_compute; reflexivity|]. split; [vm_compute; reflexivity|].
-  split; [vm_compute; reflexivity|]. split; [vm_compute; reflexivity|].
-  split; [vm_compute; reflexivity|]. split; vm_compute; reflexivity.
-Qed.
+  tc_wf c = true /\ tc_no_fixed_point c = true /\ tc_no_zero_len c = true /\
+  match DecodeABIData c bs 0 with
+  | Ok x => match EncodeABIData x with
+            | Ok e => bools_ok x && match DecodeABIData c e 0 with Ok x' => cval_eqb x x' | _ => false end
+            | _ => false
+            end
+  | _ => false
+  end = true.
+Proof. vm_compute. auto. Qed.
